@@ -151,7 +151,7 @@ def check(ctx, t0):
     else:
         run_fncorr(ctx, spec.get('fncorr', []))
         for r in spec.get('runners', []):
-            getattr(sys.modules[__name__], r, None) or _missing(r)
+            _missing(r)
             RUNNERS[r](ctx)
         replay_known(ctx)
     if not lean_ok:
@@ -171,6 +171,63 @@ RUNNERS = {}
 def runner(fn):
     RUNNERS[fn.__name__] = fn
     return fn
+
+
+def _stream(ctx, modes):
+    """stream-level correspondence + property oracles on the implementation's own outputs"""
+    out_path = os.path.join(C.CACHE, f'streamcorr-{ctx.pid}-{os.getpid()}.json')
+    cmd = [os.path.join(C.TARGET, 'streamcorr'), '--model', C.MODEL, '--tier', ctx.tier, '--seed', str(ctx.seed),
+           '--threads', '12', '--out', out_path] + modes
+    rc, out = C.run(cmd, timeout=14400)
+    for l in out.strip().splitlines():
+        C.log(l[:160])
+    if rc != 0 or not os.path.exists(out_path):
+        raise C.Infra(f'streamcorr failed (rc={rc}): {out[-400:]}')
+    doc = json.load(open(out_path))
+    os.unlink(out_path)
+    pid = ctx.pid
+    for s in doc['suites']:
+        mode = s['suite'].replace('stream-', '')
+        mine = [f for f in s['oracle_failures'] if f'{pid}:' in f['property_failure']]
+        ctx.parts.append(dict(name=f"stream-corr({mode})", evaluations=s['evaluations'], distinct_nontrivial=s['distinct_nontrivial'],
+                              rule=s['rule'], samples=[], distribution=s['distribution'], wall_s=s.get('wall_s'),
+                              model_disagreements=s['disagreement_count'], impl_property_failures=s['oracle_failure_count'],
+                              impl_property_failures_for_this_property=len(mine)))
+        for f in mine[:3]:
+            path = C.write_replay(pid, 'oracle-failure', dict(runner='stream', mode=mode, case_id=f['case_id'], seed=ctx.seed, tier=ctx.tier,
+                                                             input=f['input'], property_failure=f['property_failure']))
+            ctx.violations.append((path, False, f['property_failure'][:300]))
+        if s['disagreement_count'] and not mine:
+            for d in s['disagreements'][:2]:
+                path = C.write_replay(pid, 'correspondence', dict(
+                    runner='stream', mode=mode, case_id=d['case_id'], seed=ctx.seed, tier=ctx.tier, input=d['input'],
+                    observed=d['impl'][:4000], expected_by_model=d['model'][:4000],
+                    correspondence=f"stream-corr({mode}): the real tool under --dry-run --fe_stream_override and Filter.runBytes differ on this stream/option set; the {pid} oracle holds on every generated case of this run",
+                    theorems_no_longer_about_the_code=C.props_theorems(pid)))
+                ctx.violations.append((path, True, f"stream-level model and implementation differ ({s['disagreement_count']} cases); no {pid} oracle failure among {s['evaluations']} cases"))
+
+
+@runner
+def stream(ctx):
+    _stream(ctx, ctx.spec.get('stream_modes', ['corr', 'neutral']))
+
+
+def _replay_stream(ctx, doc, path):
+    tmp = os.path.join(C.CACHE, f'scase-{os.getpid()}.json')
+    json.dump({'mode': doc['mode'], 'case_id': doc['case_id'], 'seed': doc.get('seed', 1), 'tier': doc.get('tier', 'quick')}, open(tmp, 'w'))
+    rc, out = C.run([os.path.join(C.TARGET, 'streamcorr'), '--model', C.MODEL, '--case', tmp], timeout=1200)
+    os.unlink(tmp)
+    try:
+        r = json.loads(out[out.index('{'):])
+    except Exception:
+        r = {}
+    print(json.dumps({k: r.get(k) for k in ('disagrees', 'property_failure')}, indent=1))
+    pf = r.get('property_failure') or ''
+    if rc != 0:
+        nofail = f'{ctx.pid}:' not in pf
+        print(f'VIOLATION property={ctx.pid} replay={path}' + (' no-failing-input-found' if nofail else ''))
+        return 1
+    return 0
 
 
 def _missing(r):
@@ -264,4 +321,4 @@ def replay(ctx, path):
     return check(ctx, time.time())
 
 
-REPLAYERS = {}
+REPLAYERS = {'stream': _replay_stream}
